@@ -80,7 +80,7 @@ func TestVerifMLKEMEncapsKeys(t *testing.T) {
 			origs = append(origs, pk)
 		}
 		lib.Par(len(keys), func(i int) {
-			judgeMLKEM(s, k, tc{"valid", keys[i]}, origs[i])
+			judgeMLKEM(s, k, tc{"valid", keys[i], nil}, origs[i])
 			lib.Count("converse-roundtrip:mlkem")
 		})
 		var w tcs
